@@ -344,7 +344,7 @@ def run_case(built, path, modname, convert_kwargs=None):
                        'frames': user_frames(e.__traceback__, path)}
     REC.conversions.clear()
     REC.stack_calls.clear()
-    kw = dict(recursive=True, optional_features=None)
+    kw = dict(recursive=bool(built.get('recursive', True)), optional_features=None)
     kw.update(convert_kwargs or {})
     w = malt.convert(**kw)(f)
     try:
